@@ -379,6 +379,8 @@ def r14_ident_positions(c, facts, rule='C05.R14'):
 
 
 def run(c, facts):
+    import c02 as _c02e
+    c.run(lambda c: _c02e.r27_every_element(c, facts, rule='C05.R20'))      # grouping operands (parentheses, a name) cannot drop one: every operand of an operation is stored
     import c08 as _c08n
     import c12 as _c12n
     c.run(lambda c: _c08n.r17_name_keyed_state(c, facts, rule='C05.R18'))      # renaming consistently cannot make two declarations share evaluator state
